@@ -114,7 +114,7 @@ def run(out):
         for k in ks[:2]:
             out.sample({'abbr': k[0], 'maxRepeat': k[1], 'expected': [[e['d'], e['n'], e['pl'], e['v']] for e in vecs[k]['out']][:12]})
     # ---- grammar-level differential: tokenizer + parser + convert() of the specification against abbreviation.parse()
-    gq = dict(NameFr={"x", "li$", "h$$@3"}, ModFr={".c$@-", "{t$@^}", "[n=$$@-5]", "#i$@^^"}, RepFr={"*1", "*2", "*3", "*"}, OpFr={">", "+", "^"},
+    gq = dict(NameFr={"x", "li$", "h$$@3"}, ModFr={".c$@-", "{t$@^}", "[n=$$@-5]", "#i$@^^", "{u$@1}", ".d$$@01"}, RepFr={"*1", "*2", "*3", "*"}, OpFr={">", "+", "^"},
               MaxGroups=1, MaxMods=1)
     # without a limit X*N makes exactly N copies also for large N (and large products of nested counts)
     grammar.differential(out, 'grammar-large-count', dict(NameFr={"x"}, ModFr={".c$"}, RepFr={"*1001"}, OpFr=set(), MaxGroups=0, MaxMods=1, MaxFrag=2 if quick else 3),
